@@ -391,6 +391,17 @@ def f21():
     return dev <= 1e-9, f"largest relative deviation of production from equilibrium over 40 steps: {dev:.3g}"
 
 
+@trigger("F22", ["C20", "C12"])
+def f22():
+    """an impact Series made only of zeros must be rejected like an empty one"""
+    try:
+        bev.from_series(pd.Series({("rA", "agri"): 0.0, ("rB", "manu"): 0.0}), event_type="recovery",
+                        occurrence=1, duration=1, recovery_tau=3, event_monetary_factor=10**6)
+    except ValueError:
+        return True, "rejected"
+    return False, "accepted: an event without any affected industry"
+
+
 def run_all(props=None, only=None):
     res = {}
     for fid, t in TRIGGERS.items():
